@@ -263,6 +263,9 @@ func (cs *Contracts) parseContractFile(path, pkgPath string) error {
 			if !strings.Contains(key[:strings.LastIndex(key, ".")], ".") && pkgPath != "" { // "Iface.Method" relative
 				fk = pkgPath + "." + key
 			}
+			if _, dup := cs.Ifaces[fk]; dup {
+				problem(ln, "duplicate contract for interface method %s (the later one would silently replace the earlier)", fk)
+			}
 			cs.Ifaces[fk] = cur
 			return
 		case "ghost", "spec":
